@@ -169,6 +169,14 @@ func c08Gen(rt *rapid.T) wProg {
 			tgt := gInt(rt, 1, 2, "obotgt")
 			p.Ops = append(p.Ops, wOp{K: "sub", S: 0, T: "g0"}, wOp{K: "set", S: 0, T: "g0", A: "private", B: gPick(rt, []string{"ra", "rb"}, "oboval"), Obo: tgt + 1},
 				wOp{K: "set", S: 0, T: "g0", A: "mode", B: gPick(rt, []string{"JRWP", "JRW", "JRWPS"}, "obomode"), Obo: tgt + 1}, wOp{K: "get", S: 0, T: "g0", A: "sub"})
+		case x < 19 && p.Cfg.Root:
+			// the root user suspends or reinstates an account while that account's topics (the group
+			// it owns, its P2P topics - whichever side of the name its id is on) may be in memory
+			tgt := gInt(rt, 0, 2, "susptgt")
+			p.Ops = append(p.Ops, wOp{K: "acc", S: 0, U: tgt, A: gPick(rt, []string{"susp", "susp", "ok"}, "status")})
+			if gPct(rt, 50) {
+				p.Ops = append(p.Ops, anyOp(), wOp{K: "acc", S: 0, U: tgt, A: gPick(rt, []string{"ok", "ok", "susp"}, "status2")})
+			}
 		case x < 72:
 			p.Ops = append(p.Ops, anyOp())
 		case x < 84:
@@ -286,6 +294,18 @@ func c08Compare(w *wWorld) []c08Div {
 				}
 				add(name+"|"+who+"|"+sigField("diverged:delID:"+dir+":"+catName(lt.Cat)), kit.V("diverged:delID:"+dir+":"+catName(lt.Cat), "topic %s: cached delete id %d, stored %d", name, lt.DelID, trow.del))
 				c08Skip = true
+			}
+			// a suspended topic (its owner's / a participant's account was suspended) is read-only in
+			// memory exactly as long as the store says 'suspended': a reload would make it so
+			if lt.Cat != types.TopicCatSys {
+				for _, r := range snap.Topics {
+					if r.Name == name {
+						if ro, susp := lt.Status&topicStatusReadOnly != 0, r.State == types.StateSuspended; ro != susp {
+							add(name+"|"+who+"|"+sigField("diverged:read-only:"+catName(lt.Cat)), kit.V("diverged:read-only:"+catName(lt.Cat), "topic %s: read-only in memory = %v, stored state suspended = %v", name, ro, susp))
+							c08Skip = true
+						}
+					}
+				}
 			}
 			if lt.Cat == types.TopicCatSys && lt.DelID != trow.del {
 				add(name+"|"+who+"|"+sigField("diverged:delID:sys"), kit.V("diverged:delID:sys", "topic sys: cached delete id %d, stored %d", lt.DelID, trow.del))
